@@ -471,3 +471,26 @@ def _k2_slash_helper(body):
 M2('c16-k2-slash-helper-drops-replacement-characters', 'C16', 'R11', _k2_slash_helper(
     "    path = path.replace('\\ufffd', '')\n    if strip_trailing_slash and len(path) != 1 and path.endswith('/'):\n        return path[:-1]\n\n    return path\n"),
     also=('C06',))
+# the decode step moved into a module-level helper whose error policy is a private module-level literal handed in as a default: 'ignore' drops the bytes
+_K2_DEC_HELPER = '''_PATH_ERRORS = 'ignore'
+
+
+def _decode_path(path: str, errors: str = _PATH_ERRORS) -> str:
+    if path.isascii():
+        return path
+    return path.encode('iso-8859-1').decode('utf-8', errors)
+
+
+'''
+M2('c16-k2-decode-helper-ignores-undecodable-bytes', 'C16', 'R11',
+   [{'file': REQ, 'old': "        if not path.isascii():\n" + _DEC, 'new': "        path = helpers._decode_path(path)\n"},
+    {'file': 'falcon/request_helpers.py', 'old': _K2_SLASH_ANCHOR, 'new': _K2_DEC_HELPER + _K2_SLASH_ANCHOR}], also=('C06', 'C04'))
+# (C04 R6 / C06 R2 do not look through the helper and report the .encode() in it as able to escape: their reading, not part of this break)
+# the match object kept in a local and tested the wrong way round (`is None` rejects every clean name and lets the dirty ones through)
+M2('c16-chars-match-local-tested-inverted', 'C16', 'R11',
+   [{'file': ST, 'old': "        without_prefix = req.path[len(self._prefix) :]\n",
+     'new': "        without_prefix = req.path[len(self._prefix) :]\n        bad = self._DISALLOWED_CHARS_PATTERN.search(without_prefix)\n"},
+    {'file': ST, 'old': "            or self._DISALLOWED_CHARS_PATTERN.search(without_prefix)\n", 'new': "            or bad is None\n"}])
+# k2-c16-3 reads the unit as the slice `value[: value.index('=')]` (first '='): the same slice up to the LAST '=' is the s9 mistake again
+M('c16-k2-range-unit-slice-before-last-separator', 'C16', 'R13', REQ, _UNIT,
+  "        if value and '=' in value:\n            return value[: value.rindex('=')]\n")
